@@ -95,6 +95,12 @@ def writePotentials(potentials, cutoff, gridPoints, out = sys.stdout):
   @param gridPoints Number of grid points used to tabulate potential
   @param out Python stream object (supporting write()) to which output is sent"""
 
+  #The row count is checked before anything is written, whatever the potentials (also none) are
+  if gridPoints%4 != 0:
+    raise WritePotentialException("The number of rows in a DL_POLY TABLE file needs to be divisible by 4. Number of rows specified = {} ".format(gridPoints))
+  if gridPoints < 8:
+    raise WritePotentialException("A DL_POLY TABLE file needs at least 8 rows (the mesh resolution is cutoff/(rows-4)). Number of rows specified = {} ".format(gridPoints))
+
   meshResolution = cutoff / (gridPoints-4.0)
   outputbuilder = StringIO()
   _writeTableHeader(meshResolution, cutoff, gridPoints, outputbuilder)
